@@ -336,7 +336,8 @@ type reqTrace struct {
 	attempts int // forward attempts (including refused ones)
 	faulted  bool
 	// forwarder's belief about the target at the time of each delivered forward
-	beliefs []string
+	beliefs    []string
+	arrowLocal []int // nodes that answered a qarrow 200 without forwarding
 }
 
 type frame struct {
@@ -471,6 +472,7 @@ func (cl *clusterSim) serve(t *simNode, tr *reqTrace, depth, from int, method, u
 	ctx.Request.SetBodyRaw(own)
 	marker := string(ctx.Request.Header.Peek("X-Arc-Forwarded-By"))
 	tr.arrivals = append(tr.arrivals, arrival{node: t.idx, depth: depth, from: from, marker: marker})
+	attemptsBefore := tr.attempts
 	simrt.Event("ARRIVE r%d at=n%d depth=%d from=%d marker=%q %s %s", tr.idx, t.idx+1, depth, from+1, marker, method, strings.SplitN(uri, "?", 2)[0])
 	tid := simrt.CurTask().ID()
 	saved := cl.cur[tid]
@@ -482,6 +484,9 @@ func (cl *clusterSim) serve(t *simNode, tr *reqTrace, depth, from int, method, u
 	var rh [][2]string
 	ctx.Response.Header.VisitAll(func(k, v []byte) { rh = append(rh, [2]string{string(k), string(v)}) })
 	simrt.Event("ANSWER r%d by=n%d depth=%d status=%d", tr.idx, t.idx+1, depth, st)
+	if tr.req.Kind == "qarrow" && st == 200 && tr.attempts == attemptsBefore {
+		tr.arrowLocal = append(tr.arrowLocal, t.idx)
+	}
 	return st, rh, rb
 }
 
@@ -833,8 +838,10 @@ func (cl *clusterSim) judge(out *simkit.Outcome, quietRun bool) {
 			} else if q.Kind == "qarrow" {
 				// the Arrow endpoint does not use the query registry: a 200 answer that
 				// involved no forward was computed by the entry node itself
-				if i == q.Entry && tr.status == 200 && forwards == 0 {
-					c = 1
+				for _, x := range tr.arrowLocal {
+					if x == i {
+						c++
+					}
 				}
 			} else {
 				c = sqlCounts[i][reqSQL(tr.idx)]
@@ -902,7 +909,7 @@ func (cl *clusterSim) judge(out *simkit.Outcome, quietRun bool) {
 			out.Violate("C30.served.success-answer-but-no-node-processed."+class, "request r%d (%s) via n%d got status %d but no node processed it; path %s", tr.idx, q.Kind, q.Entry+1, tr.status, chain(tr))
 		}
 		// (6) quiet cluster: an incapable receiver forwards once to a capable peer
-		if quietRun && !canServe(entryCfg, write) && q.FwdBy == "" && q.Kind != "qarrow" && !entryCfg.HC {
+		if quietRun && !canServe(entryCfg, write) && q.FwdBy == "" && !entryCfg.HC {
 			cands, good := 0, true
 			for j := range cl.nodes {
 				if j == q.Entry {
